@@ -73,10 +73,6 @@ def handle (ws : List String) : String :=
     match parseForm form, unhex s, parseEnv env with
     | some f, some b, some E => hex (Quote.quote E f b)
     | _, _, _ => "bad-op"
-  | ["quotefixed", form, s, env] =>
-    match parseForm form, unhex s, parseEnv env with
-    | some f, some b, some E => hex (Quote.quoteFixed E f b)
-    | _, _, _ => "bad-op"
   | ["unquote", s] =>
     match unhex s with
     | some b => resStr (Quote.unquote b)
